@@ -170,6 +170,12 @@ def apply_rules(text, rules):
             if k < r.get("min", 0):
                 raise ExtractionDrift("must-fire rule %r fired %d < %d times" % (r["name"], k, r["min"]))
             continue
+        if "forbid" in r:
+            # nothing matching the pattern may survive the earlier rules (an unmapped construct): drift, not a guess
+            if re.search(r["forbid"], text, re.S):
+                raise ExtractionDrift("rule %r: unmapped text %r remains" % (r["name"], re.search(r["forbid"], text, re.S).group(0)[:60]))
+            fired.append((r["name"], 0))
+            continue
         flags = r.get("flags", re.S)
         text, k = re.subn(r["re"], r["sub"], text, flags=flags)
         fired.append((r["name"], k))
